@@ -94,6 +94,18 @@ class Group(SubclassJSONSerializer):
         return cls(members=from_json(data["members"]), leader=from_json(data["leader"]), extra=from_json(data["extra"]))
 
 
+class ForeignChild(Foreign):
+    """Derives from a registered type but is not registered itself: not deserialisable."""
+
+    def __init__(self, x=0, extra=None):
+        super().__init__(x)
+        self.extra = extra
+
+
+class UUIDChild(uuid.UUID):
+    """A subclass of a registered third-party type; not registered itself."""
+
+
 class Plain:
     """A class that is neither a serialiser nor registered."""
 
